@@ -382,6 +382,11 @@ impl Check for C15 {
             0 => {
                 // bare deserializer
                 let bytes: Vec<u8> = match origin_i {
+                    0 if rng.chance(1, 300) => {
+                        // one message in more than 65,536 chunks
+                        let mut enc = Encoder::new();
+                        c03::gen_stream_for_c15(7, rng, &mut enc, 1)
+                    }
                     0 => {
                         let cfg = GenCfg { max_ops: 12, allow_user_type1: false, drop_pct: 0, max_payload: 3000, max_chunks: 300, set_chunk_pct: 10 };
                         let ops = chunkgen::gen_history(rng, &cfg);
@@ -430,6 +435,7 @@ impl Check for C15 {
                         _ => 3, // hostile chunks
                     };
                     let gen = if origin_i == 0 && rng.chance(1, 60) { 6 } else { gen }; // > 1024 tiny valid messages
+                    let gen = if origin_i == 0 && rng.chance(1, 300) { 7 } else { gen }; // one message in > 65,536 chunks
                     let mut b = c03::gen_stream_for_c15(gen, rng, &mut enc, hint);
                     if origin_i == 0 && rng.coin() {
                         b.extend(c03::gen_stream_for_c15(1, rng, &mut enc, hint));
